@@ -1,6 +1,8 @@
 import PycsepVerif.Proto
 import PycsepVerif.Model.Sampler
 import PycsepVerif.Model.SamplerExt
+import PycsepVerif.Model.SamplerRng
+import PycsepVerif.Model.SamplerSearch
 /-! driver ops of property C06 (prefix `c06_`) -/
 namespace Drive.C06
 open Proto
@@ -84,5 +86,33 @@ def handle : List String → Option String
          | some arrs => if arrs.isEmpty then "-" else ";".intercalate (arrs.map (showList toString))
          | none => "exception")
       | _, _, _ => "bad-op")
+  -- c06_mt <seed> <n> : the first n numbers of `numpy.random.seed(seed); numpy.random.rand(n)` (exact rationals)
+  | ["c06_mt", s, n] => some (match s.toNat?, n.toNat? with
+      | some s, some n => showList showRat (SamplerRng.stream s n) | _, _ => "bad-op")
+  -- c06_seeded_p <rates> <observed counts> <nsim> <seed> : conditional Poisson test with seed=, no numbers handed in
+  | ["c06_seeded_p", rs, os, k, s] =>
+      some (match parseList? parseRat? rs, parseList? (fun s => s.toNat?) os, k.toNat?, s.toNat? with
+      | some rs, some os, some k, some s => (match SamplerRng.poissonTestSeeded rs os k s with
+         | some arrs => if arrs.isEmpty then "-" else ";".intercalate (arrs.map (showList toString))
+         | none => "exception")
+      | _, _, _, _ => "bad-op")
+  -- c06_seeded_l <rates> <exp(-mean)> <nsim> <seed> : L-test (forecast mean < 10) with seed=: n1:arr1;n2:arr2...
+  | ["c06_seeded_l", rs, en, k, s] =>
+      some (match parseList? parseRat? rs, parseRat? en, k.toNat?, s.toNat? with
+      | some rs, some en, some k, some s => (match SamplerRng.lTestSeeded rs en k s with
+         | some arrs => if arrs.isEmpty then "-" else
+             ";".intercalate (arrs.map (fun p => s!"{p.1}:{showList toString p.2}"))
+         | none => "exception")
+      | _, _, _, _ => "bad-op")
+  -- c06_seeded_m <rates> <observed counts> <nsim> <seed> <fuel> : binary / Brier test with seed=
+  | ["c06_seeded_m", rs, os, k, s, f] =>
+      some (match parseList? parseRat? rs, parseList? (fun s => s.toNat?) os, k.toNat?, s.toNat?, f.toNat? with
+      | some rs, some os, some k, some s, some f => (match SamplerRng.binaryTestSeeded rs os k s f with
+         | some arrs => if arrs.isEmpty then "-" else ";".intercalate (arrs.map (showList toString))
+         | none => "not-finished")
+      | _, _, _, _, _ => "bad-op")
+  -- c06_bsearch <array> <keys> : numpy's binary search (side='right', bounds carried from key to key) on ANY array
+  | ["c06_bsearch", ws, ks] => some (match parseList? parseRat? ws, parseList? parseRat? ks with
+      | some ws, some ks => showList toString (SamplerSearch.searchsortedRight ws ks) | _, _ => "bad-op")
   | _ => none
 end Drive.C06
